@@ -431,16 +431,20 @@ example : ∃ sched, (Net.run? (d28Net true) (Net.init (d28Net true)) sched).map
 theorem terminal_iff_stuck (net : Net.Net) (s : Net.NState) (h : s.terminal net = true) (t : Nat) : Net.step net s t = none :=
   Net.terminal_none h t
 
-/-- **No thread is left behind.**  For every tree-shaped net (`Net.TreeNet`: every mailbox has one reader that is a
-stage or the consumer, all its other readers are savers; stages have one output and read mailboxes of lower rank —
-chains and trees of single-output plugins and loaders with any savers, any stage programs with any lags, any capacity
-≥ 1, lazy or eager, with `fail` instructions anywhere: in sources, mid plugins, savers (`save` of any chunk, `close`)
-and in the consumer, also several at once), every schedule: a state in which no thread can move is a state in which
-EVERY thread has ended.  Together with `executions_finite`: every maximal execution is finite and ends with all
-threads — stages, savers, the consumer — terminated.  This is `failure_propagates` / `abandon_stops_all` /
-`terminates_without_failure` as far as termination goes; `_partial` because reconvergent DAGs and multi-output
-plugins are not covered (there the statement is false without a capacity hypothesis:
-`reconvergent_deadlock_counterexample`). -/
+/-- **No thread is left behind.**  For every net of the shape `Net.TreeNet` — every mailbox has one reader that is a
+stage or the consumer, all its other readers are savers; every stage has one output and reads mailboxes of lower rank;
+every reader is programmed to read its inputs to exhaustion; i.e. chains and trees of single-output plugins and loaders
+with any savers, any lags between reads and results, any capacity ≥ 1, lazy or eager, with `fail` instructions anywhere:
+in sources, mid plugins, savers (`save` of any chunk, `close`) and in the consumer, also several at once — and every
+schedule: a state in which no thread can move is a state in which EVERY thread has ended.  Together with
+`executions_finite`: every maximal execution is finite and ends with all threads — stages, savers, the consumer —
+terminated.  This is `failure_propagates` / `abandon_stops_all` / `terminates_without_failure` as far as termination goes.
+`_partial`: `TreeNet` EXCLUDES multi-output plugins (no divider thread satisfies it), EVERY reconvergent graph (also a
+lag-free diamond), stages that stop reading an input before its end, and non-driving pipe readers (see the docstring of
+`Net.TreeNet`); for those nets there is no theorem (for reconvergent ones the statement is false without a capacity
+hypothesis: `reconvergent_deadlock_counterexample`), only the sampled runs of the real code and the end-state tie
+`net/dynamics`.  That `wire` yields a `TreeNet` for chains and merge trees: `wire_treeNet_partial`,
+`wire_treeNet_merge_partial` (finite families) and the `tree=` field of `c06.run` on every real wiring of the check. -/
 theorem all_threads_end_partial (net : Net.Net) (c : Net.Cert) (hT : Net.TreeNet net c) (s : Net.NState)
     (hr : Net.Reachable net s) (hterm : s.terminal net = true) : s.allEnded = true := by
   have x : Net.Term net c s := ⟨hT, Net.TInv.reachable hT hr, Net.terminal_none hterm⟩
@@ -451,8 +455,9 @@ theorem all_threads_end_partial (net : Net.Net) (c : Net.Cert) (hT : Net.TreeNet
   simp [Net.TSt.ended, x.all_ended t ts ht]
 
 /-- `abandon_stops_all`: the consumer gives up after `k` chunks (raises in its loop body, or closes the iterator, which
-`get_iter` turns into an exception thrown into the processor): an instance of the theorem above — the consumer's
-program has a `fail` after `k` reads; every pipeline thread ends, in every schedule -/
+`get_iter` turns into an exception thrown into the processor).  Nothing but the instance `.failAt k e` of
+`all_threads_end_partial` (the consumer's program has a `fail` after `k` reads): every pipeline thread ends, in every
+schedule — under the same `TreeNet` hypothesis and with the same exclusions. -/
 theorem abandon_stops_all_partial (comps : Net.Components) (o : Net.Opts) (k e : Nat) (c : Net.Cert)
     (hT : Net.TreeNet (Net.wire comps o (.failAt k e)) c) (s : Net.NState)
     (hr : Net.Reachable (Net.wire comps o (.failAt k e)) s) (hterm : s.terminal (Net.wire comps o (.failAt k e)) = true) :
@@ -500,8 +505,12 @@ consumer's `iter()` has ended with an outcome, and
   never a timeout, never an exception made up on the way (`MailBoxAlreadyClosed`, a missing kill reason);
 * it returned normally only if NO thread ever raised anything, and then it has taken every message of the target and the
   end marker: never silently truncated data.
-`_partial`: `TreeNet` (no reconvergence, no multi-output plugins); the second item needs `SinksListed` (every saver is
-in the list `iter()` checks — `wire` guarantees it, see the examples). -/
+"The original exception" is proved as "SOME injected exception": with several faults in one net it may be any of them
+(the real code has the same freedom: whichever kill arrives first); for a net with ONE injected identity it is that one:
+`failure_propagates_single_fault_partial`.
+`_partial`: `TreeNet` (no multi-output plugin, no reconvergence of any kind, every reader drains its inputs — see
+`Net.TreeNet`); the second item needs `SinksListed` (every saver is in the list `iter()` checks — `wire` guarantees it,
+see the examples and `wire_treeNet_partial`). -/
 theorem failure_propagates_partial (net : Net.Net) (c : Net.Cert) (hT : Net.TreeNet net c) (s : Net.NState)
     (hr : Net.Reachable net s) (hterm : s.terminal net = true) :
     s.allEnded = true ∧ ∃ out, s.outcome = some out ∧
@@ -528,6 +537,17 @@ theorem failure_reaches_caller_partial (net : Net.Net) (c : Net.Cert) (hT : Net.
   cases out with
   | returned => exact absurd ((h2 hSL rfl).1 t ts hts) hexc
   | raised e => obtain ⟨id, rfl, hinj⟩ := h1 e rfl; exact ⟨id, hout, hinj⟩
+
+/-- single-fault reading of `failure_propagates_partial` ("the ORIGINAL exception"): if `id` is the only exception
+identity injected anywhere in the net and the consumer's `iter()` raised, it raised exactly `id` -/
+theorem failure_propagates_single_fault_partial (net : Net.Net) (c : Net.Cert) (hT : Net.TreeNet net c) (id : Nat)
+    (honly : ∀ id', Net.Injected net id' → id' = id) (s : Net.NState) (hr : Net.Reachable net s)
+    (hterm : s.terminal net = true) (e : Net.Exc) (hout : s.outcome = some (.raised e)) : e = .inj id := by
+  obtain ⟨_, out, hout', h1, _⟩ := failure_propagates_partial net c hT s hr hterm
+  rw [hout] at hout'
+  cases hout'
+  obtain ⟨id', rfl, hinj⟩ := h1 e rfl
+  rw [honly id' hinj]
 
 /-- `terminates_without_failure` for tree-shaped nets: no `fail` / `die` anywhere ⇒ every maximal execution ends with
 all threads finished and the consumer returning normally with everything — for EVERY capacity ≥ 1 and every lag of
@@ -574,5 +594,61 @@ example : (Net.run? exCleanNet (Net.init exCleanNet)
      2, 3, 0, 0, 1, 5, 5, 5, 5, 5, 5, 5, 5, 5, 5, 5]).map
     (fun s => (s.terminal exCleanNet, s.allEnded, s.outcome)) = some (true, true, some .returned) := by
   decide +kernel
+
+/-! ### `wire` yields tree-shaped nets (finite families) -/
+
+def famOk (c : Net.Components) (lz : Bool) (cap : Nat) (cons : Net.Consumer) : Prop :=
+  Net.TreeNet (Net.wire c { allowLazy := lz, maxMessages := cap } cons)
+      (Net.certOf (Net.wire c { allowLazy := lz, maxMessages := cap } cons)) ∧
+    Net.SinksListed (Net.wire c { allowLazy := lz, maxMessages := cap } cons)
+      (Net.certOf (Net.wire c { allowLazy := lz, maxMessages := cap } cons))
+
+instance (c lz cap cons) : Decidable (famOk c lz cap cons) := by unfold famOk; infer_instance
+
+def famName (i : Nat) : String := ["pa", "pb", "pc"].getD i "px"
+
+/-- chain of `k` one-to-one plugins (`pa` the source) over `n` chunks; bit `i` of `mask`: type `i` has a saver -/
+def famChain (k n mask : Nat) : Net.Components :=
+  { plugins := (List.range k).reverse.map fun i => (famName i, i),
+    defs := (List.range k).map fun i =>
+      { cls := famName i, provides := [famName i], dependsOn := if i = 0 then [] else [famName (i - 1)],
+        prog := if i = 0 then List.replicate n .emit
+                else (List.replicate n [Net.SInstr.read 0, .emit]).flatten ++ [.read 0] },
+    loaders := [],
+    savers := ((List.range k).filter fun i => mask.testBit i).map fun i => (famName i, [{}]),
+    targets := [famName (k - 1)] }
+
+/-- the hypotheses `TreeNet` and `SinksListed` of the net theorems hold for `wire` of every chain of 1–3 single-output
+plugins over 1–2 chunks with every subset of savers, lazy and eager, capacity 1 and 3, consumer draining or giving up
+after one chunk (384 nets).  `_partial`: a finite family checked by evaluation; the general statement "tree-shaped
+components ⇒ `TreeNet (wire …)`" is NOT proved.  The check evaluates the same decision procedure on the wiring of every
+real run (`c06.run`, `tree=`). -/
+theorem wire_treeNet_partial : ∀ k ∈ [1, 2, 3], ∀ n ∈ [1, 2], ∀ mask ∈ List.range 8, ∀ lz ∈ [true, false], ∀ cap ∈ [1, 3],
+    ∀ cons ∈ [Net.Consumer.drain, .failAt 1 5], famOk (famChain k n mask) lz cap cons := by
+  decide +kernel
+
+/-- merge tree `tt ← (sa, sb)`: source `sa` with a `fail` before its chunk `fpos` (none if `fpos > n`), every subset of
+savers, each saver of kind `sv` -/
+def famMerge (n mask fpos : Nat) (sv : Net.SaverD) : Net.Components :=
+  { plugins := [("tt", 2), ("sa", 0), ("sb", 1)],
+    defs := [{ cls := "SA", provides := ["sa"], dependsOn := [],
+               prog := if fpos ≤ n then List.replicate fpos .emit ++ [.fail 3] ++ List.replicate (n - fpos) .emit
+                       else List.replicate n .emit },
+             { cls := "SB", provides := ["sb"], dependsOn := [], prog := List.replicate n .emit },
+             { cls := "TT", provides := ["tt"], dependsOn := ["sa", "sb"],
+               prog := (List.replicate n [Net.SInstr.read 0, .read 1, .emit]).flatten ++ [.read 0, .read 1] }],
+    loaders := [],
+    savers := ((List.range 3).filter fun i => mask.testBit i).map fun i => (["sa", "sb", "tt"].getD i "", [sv]),
+    targets := ["tt"] }
+
+/-- … and for the merge tree with a failing source at every position, healthy savers / savers failing in `save` /
+savers failing in `close`, every subset of savers, lazy and eager (288 nets).  `_partial` as above. -/
+theorem wire_treeNet_merge_partial : ∀ n ∈ [1, 2], ∀ mask ∈ List.range 8, ∀ fpos ∈ [0, 1, 3],
+    ∀ sv ∈ [({} : Net.SaverD), { failAt := some 0, exc := 7 }, { failClose := true, exc := 9 }], ∀ lz ∈ [true, false],
+    famOk (famMerge n mask fpos sv) lz 1 .drain := by
+  decide +kernel
+
+/-- multi-output plugins and diamonds are outside `TreeNet` (so the `_partial` theorems say nothing about them) -/
+example : ¬ Net.TreeNet (d28Net true) (Net.certOf (d28Net true)) := by decide +kernel
 
 end Strax.C06
